@@ -42,20 +42,33 @@ PRIOR = {('trailers', True): [(bytes(n), bytes(v)) for n, v in REQ],
          ('trailers', False): [(bytes(n), bytes(v)) for n, v in RESP]}
 
 
-def send(s, kind, client, hdrs):
+def send(s, kind, client, hdrs, late_cfg=None, refused_first=False):
+    """late_cfg: outbound switches the application sets on conn.config once the stream exists (the connection
+    was created with them off): the configuration in force when the block is sent is what counts."""
+    def switch():
+        for k, v in (late_cfg or {}).items():
+            setattr(s.c.config, k, v)
     if kind == 'request':
+        switch()
         return s.call('send_headers', 1, hdrs)
     if kind == 'push':
         s.feed(wire.headers(1, s.hblock(REQ)))
+        switch()
         return s.call('push_stream', 1, 2, hdrs)
     if kind in ('response', 'informational'):
         s.feed(wire.headers(1, s.hblock(REQ)))
+        switch()
         return s.call('send_headers', 1, hdrs)
     if client:
         s.call('send_headers', 1, REQ)
     else:
         s.feed(wire.headers(1, s.hblock(REQ)))
         s.call('send_headers', 1, RESP)
+    if refused_first:
+        # a first attempt at the trailers is refused (no END_STREAM): the block under test still stands where
+        # trailers stand
+        s.call('send_headers', 1, [(b'x-early-trailer', b'1')])
+    switch()
     return s.call('send_headers', 1, hdrs, end_stream=True)
 
 
@@ -71,9 +84,18 @@ def run_case(data):
         fs, defects = [], ['empty-list']
     dressed = H.dress(ch, fs)
     hdrs = H.materialize(dressed)
-    s = Solo(client, normalize_outbound_headers=normalize, validate_outbound_headers=validate)
+    late_cfg = None
+    if ch.chance(24):
+        late_cfg = {'normalize_outbound_headers': normalize, 'validate_outbound_headers': validate}
+        s = Solo(client, normalize_outbound_headers=False, validate_outbound_headers=False)
+        r.labels.add('switches-set-after-the-stream-exists')
+    else:
+        s = Solo(client, normalize_outbound_headers=normalize, validate_outbound_headers=validate)
     s.start()
-    o = send(s, kind, client, hdrs)
+    refused_first = kind == 'trailers' and ch.chance(64)
+    if refused_first:
+        r.labels.add('refused-trailers-first')
+    o = send(s, kind, client, hdrs, late_cfg, refused_first)
     inp = [(H.b(n), H.b(v), cls == 'NeverIndexedHeaderTuple') for n, v, cls in dressed]
     norm = H.normalize_outbound(inp) if normalize else inp
     verdict, reasons = H.conformance([(n, v) for n, v, _ in norm], kind)
